@@ -1717,7 +1717,15 @@ impl<'t> Cloner<'t> {
                 Ok(_) => unreachable!(),
                 Err(mut new_array) => {
                     match new_array.repr() {
-                        Repr::Byte | Repr::Int | Repr::Float | Repr::String => Ok(()),
+                        Repr::Byte | Repr::Int | Repr::Float => Ok(()),
+                        // The strings are separate objects which must also live in the
+                        // receiving heap
+                        Repr::String => deep_clone_elems(&mut new_array, |e: &GcStr| {
+                            match self.deep_clone_inner(&Value::from(String(e.clone_unrooted())))? {
+                                Value(String(s)) => Ok(s),
+                                _ => unreachable!(),
+                            }
+                        }),
                         Repr::Array => {
                             deep_clone_elems(&mut new_array, |e| self.deep_clone_array(e))
                         }
